@@ -107,12 +107,19 @@ def run_tiled(c):
     big_c = dict(c); big_c.pop("tile")
     big_c["shape"] = [n * r for n, r in zip(c["shape"], reps)]
     if c.get("edges"):
-        big_c["edges"] = None
+        # the grid is tiled too: the period's cell widths repeated reps[a] times
+        big_edges = []
+        for a in range(3):
+            e = np.asarray(c["edges"][a], dtype=np.float64)
+            wd = np.tile(np.diff(e), reps[a])
+            big_edges.append(np.concatenate([[e[0]], e[0] + np.cumsum(wd)]).tolist())
+        big_c["edges"] = big_edges
     oc2, arrays2, cfg2 = build_hand(big_c)
     phases = [1.0, 1.0, 1.0]
     for b in oc.boundary_objects:
         if hasattr(b, "get_bloch_phase") and b.needs_complex_fields and b.direction == "+":
-            phases[b.axis] = complex(b.get_bloch_phase(oc.volume.grid_shape, cfg.uniform_spacing()))
+            sp = float(cfg.resolved_grid.min_spacing) if cfg.has_nonuniform_grid else cfg.uniform_spacing()
+            phases[b.axis] = complex(b.get_bloch_phase(oc.volume.grid_shape, sp))
     E = tile_fields(arrays.fields.E, reps, phases); H = tile_fields(arrays.fields.H, reps, phases)
     one = [1.0, 1.0, 1.0]
     arrays2 = arrays2.aset("fields->E", jnp.asarray(E.astype(arrays2.fields.E.dtype))).aset("fields->H", jnp.asarray(H.astype(arrays2.fields.H.dtype)))
